@@ -297,6 +297,34 @@ func TestC01Authenticity(t *testing.T) {
 				Case: map[string]any{"text": text}, Observed: sv + " parsed=" + hx.JSON(back), Expected: "true, parsed fields equal to the signed ones"})
 		}
 		col.Label("path:json-text")
+		// a null slipped into the tags (as a tag, or as a tag element) changes what was signed
+		if len(e.Tags) > 0 || rapid.Bool().Draw(t, "wnull.empty") {
+			doc := gen.WireEventDoc(t, e, "wnull.")
+			for i := range doc {
+				if doc[i].K != "tags" {
+					continue
+				}
+				arr := append(gen.JArr{}, doc[i].V.(gen.JArr)...)
+				pos := rapid.IntRange(0, len(arr)).Draw(t, "wnull.pos")
+				if pos < len(arr) && rapid.Bool().Draw(t, "wnull.inner") {
+					tg := append(gen.JArr{}, arr[pos].(gen.JArr)...)
+					ip := rapid.IntRange(0, len(tg)).Draw(t, "wnull.ipos")
+					arr[pos] = append(tg[:ip:ip], append(gen.JArr{gen.JRaw("null")}, tg[ip:]...)...)
+				} else {
+					arr = append(arr[:pos:pos], append(gen.JArr{gen.JRaw("null")}, arr[pos:]...)...)
+				}
+				doc[i].V = arr
+			}
+			ntext := gen.Render(doc, nil)
+			var nb mocrelay.Event
+			if err := json.Unmarshal([]byte(ntext), &nb); err == nil {
+				if ok, _ := authentic(&nb); ok {
+					hx.Fail(t, ev.Failure{Property: "C01", Signature: "altered-authentic-wire", Clause: "an altered event received as JSON text is not authentic (null inserted into the tags)",
+						Case: map[string]any{"original": caseJSON(), "text": ntext}, Observed: "true", Expected: "false or error"})
+				}
+			}
+			col.Label("alteration:tags-null-inserted")
+		}
 		for i, a := range alts {
 			col.Label("alteration:" + strings.SplitN(a.name, "/", 2)[0])
 			if i == len(alts)-1 || i%4 == 0 {
